@@ -57,7 +57,11 @@ func c15ChooseFocus() {
 	c15FocusTaken = false
 	c15AllSym = false
 	c15ListBudget, c15BytesBudget = 3, 3
+	maxPreallocate = 1
 	if verifrt.Thorough() {
+		if verifrt.Choose("real-preallocation-cap", 2) == 1 {
+			maxPreallocate = 1000
+		}
 		c15ListBudget, c15BytesBudget = 5, 4
 		c15AllSym = verifrt.Choose("all-leaves-symbolic", 2) == 1
 	}
